@@ -79,7 +79,7 @@ class Prop:
         return files, meta["cases"]
 
     def generate(self, seed, tier, mult):
-        n = (500 if tier == "quick" else 5000) * mult
+        n = (450 if tier == "quick" else 5000) * mult
         shards = 16 if tier == "quick" else 64
         args = ["-seed", str(seed), "-n", str(n), "-shards", str(shards), "-out", self.dir,
                 "-corpus", os.path.join(vlib.ROOT, "corpus", "C16")]
